@@ -2,6 +2,7 @@ import Gopki.Model.Db
 import Gopki.Abs.Conv3
 import Gopki.Abs.Conv4
 import Gopki.Base.Forest2
+import Gopki.Lemmas.CertRound
 /-! # C01 — every issued certificate verifies under, and names, its issuer's certificate
 
 Model-level theorems about `Gen.signBody` / `Db.generateArtifacts` (what one signature covers and
@@ -71,5 +72,30 @@ theorem C01_aki_is_sha1 (crit : Bool) (bits : Der.Bytes) :
     `Conv.run_converges` — a default run from any state satisfying the invariant does not fail, regenerates
     exactly the needed entities, and afterwards every hash-carrying certificate chains to its issuer's
     *current* certificate (`Conv.Good`); `Forest.bfs_main` — issuers are handled before the entities they sign. -/
+
+/-- **the issuer DN is byte-identical to the issuer certificate's subject DN**: when the child's body names the
+    attribute list that the RFC 5280 reader returns from the issuer's certificate — which is how `GenerateArtifacts`
+    builds the issuer context, and by `CertRound.decName_nameTlv` is the list the issuer's certificate was built from —
+    then the `issuer` field of the child's DER and the `subject` field of the issuer's DER are the same value, hence
+    the same bytes; for names of any length, any attribute types and values -/
+theorem C01_issuer_dn_bytes_identical (ti tc : Gen.Tbs) (vi vc : Der.Tlv)
+    (hi : Gen.tbsTlv ti = .ok vi) (hc : Gen.tbsTlv tc = .ok vc) (oki : CertWf.TbsOk ti) (okc : CertWf.TbsOk tc)
+    (ri : X509.Tbs) (hri : X509.decTbs vi = some ri)
+    (hname : X509.decName ri.subject = some tc.issuer) :
+    ∃ rc, X509.decTbs vc = some rc ∧ rc.issuer = ri.subject ∧ rc.issuer.enc = ri.subject.enc := by
+  obtain ⟨ri', _, _, hri', _, hfi⟩ := CertRound.decTbs_tbsTlv ti vi hi oki
+  rw [hri] at hri'
+  cases hri'
+  obtain ⟨rc, _, _, hrc, _, hfc⟩ := CertRound.decTbs_tbsTlv tc vc hc okc
+  have h1 : tc.issuer = ti.subject := by
+    have := hfi.subject
+    rw [hname] at this
+    exact Option.some.inj this
+  have h2 : rc.issuer = ri.subject := by
+    have a := hfc.issuerTlv
+    have b := hfi.subjectTlv
+    rw [h1, b] at a
+    exact (Except.ok.inj a).symm
+  exact ⟨rc, hrc, h2, by rw [h2]⟩
 
 end C01
